@@ -161,7 +161,7 @@ def infer(presentation):
     buf = io.StringIO()
     try:
         with contextlib.redirect_stdout(buf):
-            with kernel.time_limit(20):
+            with kernel.time_limit(120):
                 tbl = SymbolKindFinder(registry())(names, phases)
     except kernel.Budget:
         return ["hang"]
